@@ -16,6 +16,9 @@ FORBIDDEN_PREFIXES = (
     "threading.", "multiprocessing.", "socket.", "tempfile.",
 )
 FORBIDDEN_NAMES = {"id", "input", "open", "exec", "eval", "globals", "setattr", "delattr"}
+# host round-trips whose result re-enters the traced computation (state outside the arguments)
+HOST_CALLBACKS = {"jax.experimental.io_callback", "jax.pure_callback", "jax.experimental.host_callback.call"}
+MEMO_DECORATORS = {"functools.lru_cache", "functools.cache", "functools.cached_property", "lru_cache", "cache", "cached_property"}
 COLLECTIVES = {"psum", "pmean", "pmax", "pmin", "all_gather", "all_to_all", "ppermute", "axis_index", "pshuffle", "psum_scatter"}
 KEY_CTORS = {"jax.random.key", "jax.random.PRNGKey", "jax.random.wrap_key_data"}
 
@@ -93,10 +96,19 @@ def scan_function(prog: Program, m: ModuleInfo, qual: str, fn: ast.FunctionDef, 
         local = local - set(local_imports)
     params = {a.arg for a in fn.args.posonlyargs + fn.args.args + fn.args.kwonlyargs}
     first = (fn.args.posonlyargs + fn.args.args)[0].arg if (fn.args.posonlyargs + fn.args.args) else None
+    for sub in ast.walk(fn):
+        if isinstance(sub, ast.FunctionDef):
+            for d in sub.decorator_list:
+                de = d.func if isinstance(d, ast.Call) else d
+                q = qualname_of(prog, m, de, set())
+                if q in MEMO_DECORATORS or (q or "").split(".")[-1] in ("lru_cache", "cached_property") or q == "functools.cache":
+                    hits.append(Hit("memoization", q, m.relpath, qual, sub.lineno))
     for n in ast.walk(fn):
         if isinstance(n, ast.Call):
             q = qualname_of(prog, m, n.func, local - set(m.imports))
             if q is not None:
+                if q in HOST_CALLBACKS:
+                    hits.append(Hit("host-callback", q, m.relpath, qual, n.lineno))
                 if any(q == p.rstrip(".") or q.startswith(p) for p in FORBIDDEN_PREFIXES) or q in FORBIDDEN_NAMES:
                     hits.append(Hit("forbidden-callee", q, m.relpath, qual, n.lineno))
                 if q in KEY_CTORS and n.args and all(isinstance(a, (ast.Constant, ast.UnaryOp)) for a in n.args):
